@@ -149,6 +149,7 @@ type Exec struct {
 	limit     time.Duration
 	gated     atomic.Bool
 	finishing bool
+	ndamage   int
 	deadConns map[int]bool    // connections of stopped incarnations
 	baseline  map[string]bool // goroutines (by id) left behind by earlier executions in this process
 }
@@ -764,7 +765,8 @@ func (x *Exec) damage(key uint, how string) {
 	}
 	switch how {
 	case "flip":
-		v[len(v)/2] ^= 0x40
+		x.ndamage++
+		v[(len(v)/2+x.ndamage)%len(v)] ^= 0x40 // a different byte each time: two flips never cancel
 		x.Store.Put(key, v)
 	case "trunc":
 		x.Store.Put(key, v[:len(v)/2])
